@@ -161,8 +161,11 @@ pub enum Profile {
     AnySingle,
     /// operator trees of depth <= 3 over puppets and from_iter leaves
     Composed,
-    /// share over one puppet, 1..=3 probes
+    /// share over one puppet, 1..=3 probes; with 2+ probes the puppet never replies to a Pull
+    /// synchronously (C12's quantifier excludes nested fan-out)
     Share,
+    /// share over one puppet, 1..=3 probes, synchronous Pull replies allowed (nested fan-out)
+    ShareNested,
     /// for_each (crate sink) over a single operator or a bare puppet
     ForEach,
     /// two subscriptions to one output (any operator but share)
@@ -413,10 +416,10 @@ pub fn decode(profile: Profile, bytes: &[u8], max_steps: usize) -> Scenario {
                 }
             }
         }
-        Profile::Share => {
+        Profile::Share | Profile::ShareNested => {
             n_sinks = 1 + g.d.below(3);
             attach_first = false;
-            no_sync = n_sinks >= 2;
+            no_sync = n_sinks >= 2 && profile == Profile::Share;
             Topo::Share(Box::new(g.puppet(false)))
         }
         Profile::ForEach => {
@@ -493,7 +496,7 @@ pub fn decode(profile: Profile, bytes: &[u8], max_steps: usize) -> Scenario {
             schedule.push(Step::Pup { p: who as u8, owner, act });
         } else {
             let s = (who - n_pup) as u8;
-            let act = if profile == Profile::Share || profile == Profile::Indep {
+            let act = if matches!(profile, Profile::Share | Profile::ShareNested | Profile::Indep) {
                 d.pick(&[
                     StepSAct::Attach,
                     StepSAct::Pull,
